@@ -6,6 +6,7 @@ SPECIFICATION TraceSpec
 CONSTANTS
   AllowDupStart = TRUE
   AllowSilentInit = FALSE
+  AllowRestartRace = TRUE
   AllowDoubleError = TRUE
   SInsts = {}
   SIds = {}
